@@ -10,7 +10,7 @@ import (
 
 // Op is one operation of a history over two URL slots (0 = A, 1 = B).
 type Op struct {
-	K    string // s r R c a d t o O q T A
+	K    string // s r R c a d t o O q T A i D
 	Slot int
 	W    int // setter index for K == "s"
 	A, B string
@@ -45,6 +45,13 @@ func (o Op) String() string {
 		return sl + ".SearchParams()"
 	case "A":
 		return fmt.Sprintf("%s.SetSearchParams(%s.SearchParams())", sl, "BA"[o.Slot:o.Slot+1])
+	case "i":
+		if o.W == 0 {
+			return sl + ".SearchParams().Iterate(callback that changes nothing)"
+		}
+		return sl + ".SearchParams().Iterate(callback that appends '!' to the value of the first pair on every call)"
+	case "D":
+		return "t := A.SearchParams().Clone(); A.SetSearchParams(t); B.SetSearchParams(t)"
 	}
 	return "?"
 }
@@ -60,6 +67,11 @@ func (o Op) Token() string {
 		return "R " + hx(o.A)
 	case "c", "o", "O", "T", "A":
 		return o.K + " " + sl
+	case "i":
+		return "i " + sl + " " + strconv.Itoa(o.W)
+	case "D":
+		// in the value model: A's own list written back, then B takes a copy of it
+		return "i 0 0 A 1"
 	case "a", "t":
 		return o.K + " " + sl + " " + hx(o.A) + " " + hx(o.B)
 	case "d", "q":
@@ -204,6 +216,30 @@ func (h *implHist) step(o Op) (st Step) {
 			// the argument is the other URL's own handle (obtained now or earlier)
 			if u != nil && h.u[1-o.Slot] != nil {
 				u.SetSearchParams(h.handle(1 - o.Slot))
+			}
+		case "i":
+			if u != nil {
+				sp := h.handle(o.Slot)
+				if o.W == 0 {
+					sp.Iterate(func(*url.NameValuePair) {})
+				} else {
+					var first *url.NameValuePair
+					sp.Iterate(func(p *url.NameValuePair) {
+						if first == nil {
+							first = p
+						}
+						first.Value += "!"
+					})
+				}
+			}
+		case "D":
+			// one detached copy of A's list given to both URLs
+			if h.u[0] != nil {
+				t := h.handle(0).Clone()
+				h.u[0].SetSearchParams(t)
+				if h.u[1] != nil {
+					h.u[1].SetSearchParams(t)
+				}
 			}
 		}
 	}()
